@@ -146,7 +146,7 @@ PROPS['C08'] = dict(
     level='other',
     design_ref='DESIGN.md §4 C08',
     technique='deductive (kernel): region contracts on the storing step of OptionStore.set_option and the -U step of set_from_configure_command (opaque keys/options, override table as a symbolic map with a frame clause); whole-function contracts on OptionStore.set_option (general keys; buildtype expansion) with validation/lookup/storing as effects of the ghost trace; contract on mconf.run_impl (ghost effect trace: an accepted -D/-U is recorded in cmd_line.txt unconditionally and after validation, a rejected one persists nothing); -D/-U sequences and option-file edits through the real OptionStore bounded-exhaustive against a reference model; real setup/configure/--reconfigure/--wipe command sequences on real build directories (in process, --backend=none) bounded against a reference model',
-    level_text='Proved for all keys, values and override tables: a per-subproject -D override always stores exactly the value given (whatever the inherited value) and touches no other key; an option given directly stores the validated value and stops yielding; -U of an override removes exactly that override and marks the store dirty, -U of an unknown key is an error. set_option as a whole: the value stored is the one validate_value returned, an override is stored under exactly the given key and touches no other, the returned changed flag is true exactly when the stored state differs (a NEW override counts), buildtype sets debug/optimization of the same subproject from DEFAULT_DEPENDENTS iff it changed and is not custom. `meson configure` records every accepted -D/-U in cmd_line.txt (whether or not a stored value changed) after the options were validated, saves coredata iff something changed, and persists nothing when the options are rejected. Lifecycle behaviour over command sequences and option-file edits is checked bounded on real build directories.',
+    level_text='Proved for all keys, values and override tables: a per-subproject -D override always stores exactly the value given (whatever the inherited value) and touches no other key; an option given directly stores the validated value and stops yielding; -U of an override removes exactly that override and marks the store dirty, -U of an unknown key is an error. set_option as a whole: the value stored is the one validate_value returned, an override is stored under exactly the given key and touches no other, the returned changed flag is true exactly when the stored state differs (a NEW override counts), buildtype sets debug/optimization of the same subproject from DEFAULT_DEPENDENTS iff it changed and is not custom. `meson configure` records every accepted -D/-U in cmd_line.txt (whether or not a stored value changed) after the options were validated, saves coredata iff something changed, and persists nothing when the options are rejected. A removed option vanishes: the clean-up of update_project_options examines exactly the stored keys the option file no longer declares (region contract on the set difference) and removes of these exactly the project options of this (sub)project, from the option table and from the set of project options, leaving every other entry alone (loop invariant over the set of keys visited so far); as a whole-function contract for the case that the option file declares nothing any more. Lifecycle behaviour over command sequences and option-file edits is checked bounded on real build directories.',
     level_note='Assumed: key normalisation and option lookup; opaque option objects (set_value as an effect). Region contracts verify one statement of set_option / set_from_configure_command. Conf / coredata / introspection writers / update_cmd_line_file are effects of the ghost trace in run_impl. NOT decided deductively (bounded only): pickling to disk, --wipe re-derivation from recorded command lines, rollback when setup --reconfigure fails, multi-process histories.',
     explanation='kernel: in-memory -D/-U transitions proved; persistence across processes and failure rollback not decided',
     not_decided=['setup --wipe re-derives the configuration from the recorded command lines (bounded only)', 'a failing setup --reconfigure leaves every persisted value as it was (bounded only)', 'coredata pickling'],
